@@ -18,6 +18,8 @@ CONSTANTS N,          \* commits 1..N
           TagAts,     \* commits a tag may point to
           Depths,     \* depths of the fetch under test from an empty client (0 = full)
           Deepen,     \* depths of a deepening fetch of a client that was fetched with depth 2
+          PBs,        \* second head of the first stage: a client with TWO independent shallow boundaries
+          Deepen2,    \* depths of the deepening fetch of such a client
           EmitAll
 
 VARIABLES scn, steps
@@ -28,17 +30,23 @@ Empty == [commits |-> {}, shallow |-> {}, refs |-> [n \in {OA, OB, TT} |-> NoRef
 
 Tags == {[kind |-> "none", at |-> 0]} \cup [kind : {"ann", "lw"}, at : TagAts]
 
-\* prior: px = 0 (empty client) | px > 0 with d1 \in {0,1} and local \in BOOLEAN
-Priors == {[px |-> 0, d1 |-> 0, local |-> FALSE]}
-          \cup {[px |-> x, d1 |-> d, local |-> l] : x \in 1..(N-1), d \in {0, 1, 2}, l \in BOOLEAN}
+\* prior: px = 0 (empty client) | px > 0 with d1 \in {0,1,2} and local \in BOOLEAN
+\*        | px > 0, pb > 0, d1 = 1: the first stage had two heads a = px, b = pb and the client fetched both
+\*          with depth 1: two boundary commits, each cutting its own branch
+Priors == {[px |-> 0, d1 |-> 0, local |-> FALSE, pb |-> 0]}
+          \cup {[px |-> x, d1 |-> d, local |-> l, pb |-> 0] : x \in 1..(N-1), d \in {0, 1, 2}, l \in BOOLEAN}
+          \cup {p \in {[px |-> x, d1 |-> 1, local |-> FALSE, pb |-> y] : x \in 1..(N-1), y \in PBs} : p.px # p.pb}
 
 Scenarios ==
   {s \in [dag : Dags, b : BVals, tag : Tags, prior : Priors,
-          refspec : {"all", "one"}, tags : {"follow", "all", "none"}, depth : Depths \cup Deepen] :
+          refspec : {"all", "one"}, tags : {"follow", "all", "none"}, depth : Depths \cup Deepen \cup Deepen2] :
      \* a depth-limited fetch starts from an empty client, or deepens a client that is already
      \* shallow with non-shallow commits (first fetch with depth 2, then depth \in Deepen)
      /\ (s.prior.px = 0 => s.depth \in Depths)
-     /\ (s.prior.px # 0 /\ s.prior.d1 # 2 => s.depth = 0)
+     /\ (s.prior.px # 0 /\ s.prior.d1 # 2 /\ s.prior.pb = 0 => s.depth = 0)
+     \* the client with two boundaries deepens (or fetches fully), possibly only ONE branch
+     \* (refspec "one"): the other branch's boundary commit must stay in its shallow file
+     /\ (s.prior.pb # 0 => (s.depth \in {0} \cup Deepen2 /\ s.tags = "none" /\ s.tag.kind = "none"))
      /\ (s.prior.px # 0 /\ s.prior.d1 = 2 => s.depth \in {0} \cup Deepen)
      \* not generated: deepening with auto-followed tags -- git also counts the depth from a followed
      \* tag whose target the client already owns (it becomes a want of the same request)
@@ -46,9 +54,9 @@ Scenarios ==
      /\ (s.prior.local => s.prior.d1 = 0)                \* local commits only on a full prior
      /\ s.b < N }
 
-Srv1(s) == [a |-> s.prior.px, b |-> 0, tag |-> [kind |-> "none", at |-> 0]]
+Srv1(s) == [a |-> s.prior.px, b |-> s.prior.pb, tag |-> [kind |-> "none", at |-> 0]]
 Srv2(s) == [a |-> N, b |-> s.b, tag |-> s.tag]
-Opt1(s) == [refspec |-> "all", tags |-> "follow", depth |-> s.prior.d1]
+Opt1(s) == [refspec |-> "all", tags |-> IF s.prior.pb = 0 THEN "follow" ELSE "none", depth |-> s.prior.d1]
 Opt2(s) == [refspec |-> s.refspec, tags |-> s.tags, depth |-> s.depth]
 
 Step(P, srv, cl, o) ==
@@ -71,6 +79,16 @@ Last == steps[Len(steps)]
 AsClient(st) == [commits |-> st.commits, shallow |-> st.shallow, refs |-> st.refs]
 \* the required post-state is connected up to its shallow boundary (what fsck checks)
 PostConnected == \A i \in 1..Len(steps) : Connected(scn.dag, AsClient(steps[i]))
+\* a deepening fetch retires exactly the old boundary commits that now lie strictly inside the
+\* requested depth of the FETCHED tips; every other old boundary commit stays shallow:
+\*   shallow' = (old \ unshallowed) \cup new
+Interior == IF Last.opt.depth <= 1 THEN {}
+            ELSE Within(scn.dag, HeadTips(Last.srv, Last.opt) \cup TagTips(Last.srv, Last.opt), Last.opt.depth - 2)
+OldBoundaryKept == (Len(steps) = 2 /\ Last.opt.depth > 0) =>
+                     /\ (steps[1].shallow \ Interior) \subseteq Last.shallow
+                     /\ Last.shallow \cap Interior = {}
+\* a plain fetch never changes the boundary
+PlainKeepsBoundary == (Len(steps) = 2 /\ Last.opt.depth = 0) => Last.shallow = steps[1].shallow
 \* a full fetch into a non-shallow client yields the full closure of the fetched tips
 FullClosure == (Last.opt.depth = 0 /\ Last.shallow = {}) =>
                  AncOf(scn.dag, HeadTips(Last.srv, Last.opt)) \subseteq Last.commits
